@@ -237,7 +237,7 @@ def from_path_chars(i: int, j: int, k: int) -> bool:
 
 
 # paths of different types whose FIELDS are equal (the extension is a search symbol), next to ordinary ones
-SEQ = envstr("VF_SEQ", "/r/H/A/x/v1/x_v1.*;/r/H/A/x/v1/O/x_v1.*;/r/H/A/x/v1/x_v1.m;/r/H/A/x/v1/O/x_v1.g;/r/H/S/q1/v1/q1_v1.>;/r/H/S/q1/v1/E/q1_v1.>;/r/H/A/x/v1;/r/H/S/q1/v1/E/q1_o_v1.*").split(";")
+SEQ = envstr("VF_SEQ", "/r/H/A/x/v1/x_v1.*;/r/H/A/x/v1/O/x_v1.*;/r/H/A/x/v1/x_v1.m;/r/H/A/x/v1/O/x_v1.g;/r/H/S/q1/v1/q1_v1.>;/r/H/S/q1/v1/E/q1_v1.>;/r/H/A/x/v1;/r/H/S/q1/v1/E/q1_o_v1.*;/r/H/A/X/v1;/r/H/A/X/v1/X_v1.m").split(";")
 
 
 def _owns(p: str) -> bool:
